@@ -321,7 +321,8 @@ def builder_witnesses(fx, f, matrix_result=False):
     Rx, Ry, Rz = rot.canon(r, p, y)
     M = Rz * Ry * Rx
     rolls = (sp.Rational(3, 10), sp.Rational(5, 2), -sp.Integer(2))
-    pitches = (sp.Rational(1, 2), -sp.Rational(6, 5), sp.Integer(0))
+    # a negative pitch comes back from the library's own extraction as its representative in [0, 2 pi): angles taken from a rotation are fed to the builders in that form ("modulo 2 pi")
+    pitches = (sp.Rational(1, 2), -sp.Rational(6, 5), sp.Integer(0), 2 * sp.pi - sp.Rational(6, 5))
     yaws = (-sp.Rational(2, 5), sp.Rational(11, 10), sp.Rational(7, 2), -sp.Integer(3))
     # small rotations (increments) are inside the quantifier like any other angles
     small = [(sp.Rational(1, 500), -sp.Rational(1, 300), sp.Rational(1, 250)), (sp.Rational(1, 1000), sp.Integer(0), sp.Integer(0)), (sp.Integer(0), sp.Rational(-1, 2000), sp.Rational(1, 4000)),
